@@ -97,9 +97,13 @@ def st_case(draw):
             ops.append(prev)
         if draw(st.integers(0, 2)) == 0:
             ops.append(draw(st.sampled_from([{"op": "refit_other"}, {"op": "edit"}, {"op": "repreprocess"},
-                                             {"op": "fit"}, {"op": "same_again"},
+                                             {"op": "fit"}, {"op": "same_again"}, {"op": "refit_nudge"}, {"op": "refit_nudge"},
                                              # somebody builds a rater with own regressor keywords in between
                                              {"op": "rater_kwargs", "regressor": draw(st.sampled_from(sorted(REG_KWARGS)))}])))
+            if draw(st.booleans()):
+                # the request made before the state change, once more with identical arguments: only the curve changed
+                last_rate = [o for o in ops if o["op"] == "rate"][-1]
+                ops.append(dict(last_rate))
     return {"curve": curve, "prefix": prefix, "ops": ops}
 
 
@@ -163,6 +167,12 @@ def state_op(idnt, op, curve, counter):
         if op["op"] == "refit_other":
             counter[0] += 1
             fit_default(idnt, curve, weight_cp=[0, 2e-7, 8e-7][counter[0] % 3])
+        elif op["op"] == "refit_nudge":
+            # a new fit whose interval differs from the previous one by well below a micrometre (alternately a few
+            # nanometres and 7 % of the indentation depth: SI-scale settings are tiny numbers)
+            counter[0] += 1
+            step = 2e-9 if counter[0] % 2 else 0.07 * curve["depth"]
+            fit_default(idnt, curve, weight_cp=0, range_x=[-0.5 * curve["depth"] - counter[0] * step, 0.5 * curve["z0"]])
         elif op["op"] == "edit":
             idnt.fit_properties["gcf_k"] = 0.7 if idnt.fit_properties.get("gcf_k", 1.0) == 1.0 else 1.0
         elif op["op"] == "repreprocess":
@@ -238,6 +248,7 @@ def check_case(case, ctx):
     counter = [0]
     rated_fitted = rated_unfitted = key_change = False
     last_key = None
+    last_rate_op = None
     classes = [case["prefix"], "long" if curve["n_app"] >= 600 else "short"]
     for n, op in enumerate(case["ops"]):
         if op["op"] == "rater_kwargs":
@@ -245,7 +256,14 @@ def check_case(case, ctx):
             continue
         if op["op"] != "rate":
             state_op(idnt, op, curve, counter)
+            if op["op"] == "refit_nudge" and last_rate_op is not None:
+                # rate this fit (fills the cache), then move the interval by another few nanometres: the next
+                # rating request finds a cache entry made for an almost identical fit
+                with fitgen.catch():
+                    rate(idnt, last_rate_op, ctx)
+                state_op(idnt, op, curve, counter)
             continue
+        last_rate_op = op
         desc = dict(desc0, regressor=op["regressor"], ts=op["ts"],
                     names="all" if op["names"] is None else "subset", lda=str(op["lda"]))
         fitted = bool(idnt.fit_properties.get("success")) and "hash" in idnt.fit_properties
